@@ -224,6 +224,10 @@ func (m *machine) scanRequests() {
 			m.fail("request-without-consent", "a request for week %s was made while the mode file says %q", week, m.roundMode)
 			return
 		}
+		if _, made := m.allMakers[week]; !made && !validWeek(week) {
+			m.fail("foreign-file-sent", "a request was made to %s: the uploader sent a file of the local directory that is not one of its reports", r.URL)
+			return
+		}
 		today := refcal.Date(refcal.DayOfUnix(m.roundStart.Unix()))
 		if len(week) == 10 && week > today {
 			m.fail("future-report-sent", "report for week %s was sent on %s", week, today)
@@ -943,4 +947,19 @@ func (m *machine) checkLiveness(hist *[]string) {
 			return
 		}
 	}
+}
+
+// validWeek reports whether s is a calendar date YYYY-MM-DD.
+func validWeek(s string) bool {
+	if len(s) != 10 || s[4] != '-' || s[7] != '-' {
+		return false
+	}
+	for i, c := range s {
+		if i != 4 && i != 7 && (c < '0' || c > '9') {
+			return false
+		}
+	}
+	y, mo, d := atoi(s[0:4]), atoi(s[5:7]), atoi(s[8:10])
+	yy, mm, dd := refcal.CivilFromDays(refcal.DaysFromCivil(y, mo, d))
+	return yy == y && mm == mo && dd == d
 }
